@@ -233,9 +233,104 @@ func (c *Ctx) checkGetter(fn *ssa.Function, r *registry) {
 			miss++
 		}
 	}
+	if !(bad == "" && hit >= 1 && miss >= 1) {
+		// the same clause by table, however the lookup is factored: the getter walked for every registered name and
+		// for names the registry does not have
+		if known, tbad, n := c.getterTable(fn, r); known {
+			c.decide(tbad == "", "R2", "R2:getter:"+fname(fn), site,
+				fmt.Sprintf("by table over the %d registered names and three unknown ones: each name yields a new operator of the registered constructor's type (two calls, two objects), an unknown name (nil, error)", n), tbad)
+			return
+		}
+	}
 	c.decide(bad == "" && hit >= 1 && miss >= 1, "R2", "R2:getter:"+fname(fn), site,
 		"hit path calls the registry constructor for the requested name; miss path returns (nil, error wrapping ErrUnsupportedOperator)",
 		firstNonEmpty(bad, "getter lacks a hit or a miss path"))
+}
+
+// getterTable walks the operator getter for every registered name (twice) and for unknown names.
+func (c *Ctx) getterTable(fn *ssa.Function, r *registry) (known bool, bad string, n int) {
+	st := c.libInit()
+	if len(st.failed) > 0 || len(fn.Params) != 1 || len(r.entries) == 0 {
+		return false, "", 0
+	}
+	cov := newCover(fn)
+	cov.pkgs = map[string]bool{fnPkgPath(fn): true}
+	typeOf := func(v pval, h *pheap) types.Type {
+		if v.k != pObj || h == nil || h.objs[v.i] == nil {
+			return nil
+		}
+		return h.objs[v.i].typ
+	}
+	names := make([]string, 0, len(r.entries))
+	for nm := range r.entries {
+		names = append(names, nm)
+	}
+	sort.Strings(names)
+	for _, nm := range names {
+		ctor := r.entries[nm]
+		heap := st.heap.clone()
+		p := &pinterp{c: c, budget: 100000, objects: true, globals: st.globals, cover: cov}
+		panicked := ""
+		p.onPanic = func(f *ssa.Function, in ssa.Instruction, what string) { panicked = what }
+		want, hw := p.run(ctor, nil, 0, heap.clone())
+		if hw == nil || len(want) != 1 || typeOf(want[0], hw) == nil {
+			return false, "", n
+		}
+		r1, h1 := p.run(fn, []pval{{k: pStr, s: nm}}, 0, heap)
+		if panicked != "" {
+			return true, fmt.Sprintf("the getter panics for the registered name %q: %s", nm, panicked), n
+		}
+		if p.aborted || h1 == nil || len(r1) != 2 {
+			return false, "", n
+		}
+		if nonNilKind(r1[1].k) {
+			return true, fmt.Sprintf("the registered name %q is answered with an error", nm), n
+		}
+		if r1[1].k != pNil || typeOf(r1[0], h1) == nil {
+			return false, "", n
+		}
+		if !types.Identical(typeOf(r1[0], h1), typeOf(want[0], hw)) {
+			return true, fmt.Sprintf("the name %q yields a %s, its registered constructor makes a %s", nm, typeOf(r1[0], h1), typeOf(want[0], hw)), n
+		}
+		r2, h2 := p.run(fn, []pval{{k: pStr, s: nm}}, 0, h1)
+		if p.aborted || h2 == nil || len(r2) != 2 || r2[1].k != pNil || typeOf(r2[0], h2) == nil {
+			return false, "", n
+		}
+		if r2[0].i == r1[0].i {
+			return true, fmt.Sprintf("two requests for %q yield the same operator object: operators are not fresh per node", nm), n
+		}
+		n++
+	}
+	for _, nm := range []string{"NoSuchOperator", "", strings.ToLower(names[0])} {
+		if _, isReg := r.entries[nm]; isReg {
+			continue
+		}
+		heap := st.heap.clone()
+		p := &pinterp{c: c, budget: 100000, objects: true, globals: st.globals, cover: cov}
+		panicked := ""
+		p.onPanic = func(f *ssa.Function, in ssa.Instruction, what string) { panicked = what }
+		res, h := p.run(fn, []pval{{k: pStr, s: nm}}, 0, heap)
+		if panicked != "" {
+			return true, fmt.Sprintf("the getter panics for the unknown name %q: %s", nm, panicked), n
+		}
+		if p.aborted || h == nil || len(res) != 2 {
+			return false, "", n
+		}
+		if !nonNilKind(res[1].k) {
+			if res[1].k == pNil {
+				return true, fmt.Sprintf("the unknown name %q is answered without an error", nm), n
+			}
+			return false, "", n
+		}
+		if res[0].k != pNil {
+			return true, fmt.Sprintf("the unknown name %q is answered with an operator next to the error", nm), n
+		}
+	}
+	if unc := cov.uncovered(c); len(unc) > 0 {
+		c.declined("getter table of "+fname(fn), unc)
+		return false, "", n
+	}
+	return true, "", n
 }
 
 func firstNonEmpty(a ...string) string {
@@ -538,7 +633,7 @@ func (c *Ctx) checkT3(oi *opInfo, reg string, t gateTable, gate *ssa.Function) {
 		c.violate("R6", key, site, "the gate is not given the receiver as operator: another operator's table is enforced")
 		return
 	}
-	if args[1] != fn.Params[1] {
+	if args[1] != paramOrNil(fn, 1) {
 		c.violate("R6", key, site, "the gate is not given ValidateInputs' own parameter")
 		return
 	}
@@ -609,7 +704,7 @@ func (c *Ctx) checkT6(oi *opInfo, reg string, t gateTable) {
 	var gcall *ssa.Call
 	for _, b := range fn.Blocks {
 		for _, in := range b.Instrs {
-			if call, ok := in.(*ssa.Call); ok && len(call.Common().Args) == 2 && call.Common().Args[1] == fn.Params[1] && call.Common().StaticCallee() != nil {
+			if call, ok := in.(*ssa.Call); ok && len(call.Common().Args) == 2 && call.Common().Args[1] == paramOrNil(fn, 1) && call.Common().StaticCallee() != nil {
 				gcall = call
 			}
 		}
@@ -624,7 +719,7 @@ func (c *Ctx) checkT6(oi *opInfo, reg string, t gateTable) {
 			return false
 		}
 		b, ok := call.Common().Value.(*ssa.Builtin)
-		return ok && b.Name() == "len" && call.Common().Args[0] == fn.Params[1]
+		return ok && b.Name() == "len" && call.Common().Args[0] == paramOrNil(fn, 1)
 	}
 	st := fn.Params[0].Type().(*types.Pointer).Elem().Underlying().(*types.Struct)
 	okMax, okRows, okFill := false, false, false
@@ -912,7 +1007,7 @@ func (c *Ctx) checkT7(gate *ssa.Function) {
 	// counter semantics: returns error when n<min or n>max (or != when equal); pad length = max (or min when equal)
 	c.checkCounter(count.Common().StaticCallee())
 	// padder: pads the gate's own parameter to the counter's pad length
-	okPad := pad.Common().Args[0] == gate.Params[1] && isExtractOf(pad.Common().Args[1], count, 0)
+	okPad := pad.Common().Args[0] == paramOrNil(gate, 1) && isExtractOf(pad.Common().Args[1], count, 0)
 	c.decide(okPad, "R6", "R6:T7:pad-args", c.pos(pad.Pos()), "padding applies to the caller's list with the counter's length", "padding applies to another list or length")
 	// type check is applied to the padded list with the same operator, its error is returned, success returns the padded list
 	okTyp := typ.Common().Args[0] == gate.Params[0] && typ.Common().Args[1] == ssa.Value(pad)
@@ -1015,7 +1110,7 @@ func (c *Ctx) checkCounter(f *ssa.Function) {
 					case "GetMaxInputs":
 						maxV = call
 					}
-				} else if bi, ok := call.Common().Value.(*ssa.Builtin); ok && bi.Name() == "len" && call.Common().Args[0] == f.Params[1] {
+				} else if bi, ok := call.Common().Value.(*ssa.Builtin); ok && bi.Name() == "len" && call.Common().Args[0] == paramOrNil(f, 1) {
 					nV = call
 				}
 			}
@@ -1123,7 +1218,7 @@ func (c *Ctx) checkTyper(f *ssa.Function) {
 			// index must be the same value that indexes inputs in this loop
 			for _, b2 := range f.Blocks {
 				for _, in2 := range b2.Instrs {
-					if ib, ok := in2.(*ssa.IndexAddr); ok && ib.X == f.Params[1] && ib.Index == ia.Index {
+					if ib, ok := in2.(*ssa.IndexAddr); ok && ib.X == paramOrNil(f, 1) && ib.Index == ia.Index {
 						okIdx = true
 						// the constraints read is on the non-nil edge of that input
 						for _, r := range *ib.Referrers() {
@@ -1192,7 +1287,7 @@ func (c *Ctx) checkPadder(f *ssa.Function) {
 			if bi, ok := call.Common().Value.(*ssa.Builtin); ok && bi.Name() == "append" {
 				for _, g := range guardsOf(b) {
 					for _, a := range atomsOf(g) {
-						if a.op == token.LSS && a.y == f.Params[1] {
+						if a.op == token.LSS && a.y == paramOrNil(f, 1) {
 							okLoop = true
 						}
 					}
@@ -1247,4 +1342,12 @@ func (c *Ctx) paramNilSafe(f *ssa.Function, i int, depth int) bool {
 		return false
 	}
 	return true
+}
+
+// paramOrNil: parameter i of f, or nil when f has fewer parameters (a comparison with it is then never true).
+func paramOrNil(f *ssa.Function, i int) ssa.Value {
+	if f == nil || i >= len(f.Params) {
+		return nil
+	}
+	return f.Params[i]
 }
